@@ -12,7 +12,7 @@ RULE = ("seeded programs of 1-2 tracing threads over the real libovni: normal em
         "brings the fill level to CAP - size - delta (delta in -40..+40) before the event under test so the buffer-full boundary falls at "
         "every position relative to it; both the real 2 MiB buffer and a 4 KiB variant (one constant in a generated header) are used; legal "
         "short writes (down to 1 byte) at a per-run subset of write sites; with/without OVNI_TMPDIR; stdio buffer 512..65536; "
-        "distinct = hash of the plan; non-trivial = at least one automatic flush was triggered (buffer-full boundary crossed)")
+        "distinct = hash of the plan; 15% tiny programs (0-2 events before the first flush); non-trivial = at least one automatic flush was triggered (buffer-full boundary crossed) or a tiny program")
 REAL = ["src/rt/ovni.c, src/common.c, src/parson.c compiled from /repo's working tree (ASan+UBSan)"]
 STUB = ["scheduler, clock, file layer, environment (rt/sched.c, rt/seams.c) -- tmpfs stores the bytes", "stream decoder sim/tracefmt.py"]
 ASSUMPTIONS = ["runs in which the library aborts on an accepted call are reported under 'api-refused-in-domain-call'",
@@ -31,6 +31,18 @@ def gen(rng, tier, idx):
 
     def clk():
         return (r.u64() if r.chance(70) else r.choice([0, 1, 2 ** 63, 2 ** 64 - 1])) if arbitrary_clock else "now"
+    if r.chance(15):
+        # tiny programs: 0-2 events, flush, maybe one more event and another flush
+        pool = [0] * 4 + [12] * 3 + list(range(2, 17))
+        for t in range(nth):
+            for _ in range(r.randint(0, 2)):
+                g.emit(t, rtgen.rand_mcv(r), clk(), r.choice(pool))
+            if r.chance(70):
+                g.flush(t)
+                if r.chance(50):
+                    g.emit(t, rtgen.rand_mcv(r), clk(), r.choice(pool))
+        g.finish(conformant=False)
+        return {"variant": variant, "plan": g.plan.to_case(), "tids": g.tids, "boundaries": g.boundaries, "tiny": True}
     n = r.choice([3, 10, 40, 120])
     nbound = r.randint(0, 4)
     bound_at = set(r.sample(range(n), min(nbound, n)))
@@ -93,10 +105,11 @@ def run(case, ctx):
         writes = [s for s in h.steps if s.call in ("write", "fwrite")]
         shorts = sum(1 for s in writes if 0 < s.ret < s.req)
         info = {"sim_ns": (h.allclocks[-1][2] - 10 ** 9) if h.allclocks else 0, "size": nops, "ihash": ihash(case["plan"]),
-                "nontrivial": case["boundaries"] > 0,
+                "nontrivial": case["boundaries"] > 0 or bool(case.get("tiny")),
                 "faults": {"short write": shorts, "zero clock advance": sum(1 for i in range(1, len(h.allclocks)) if h.allclocks[i][2] == h.allclocks[i - 1][2])},
                 "probes": {"automatic flush (boundary crossed)": case["boundaries"], "buffer:" + case["variant"]: 1,
-                           "relocation through OVNI_TMPDIR": 1 if plan.knobs.get("tmpdir") else 0, "two threads": 1 if len(plan.ops) > 1 else 0},
+                           "relocation through OVNI_TMPDIR": 1 if plan.knobs.get("tmpdir") else 0, "two threads": 1 if len(plan.ops) > 1 else 0,
+                           "tiny program (0-2 events before the first flush)": 1 if case.get("tiny") else 0},
                 "det": None,
                 "sample": {"variant": case["variant"], "knobs": plan.knobs, "ops_head": [o for o in plan.ops[0][:10]], "n_ops": nops,
                            "fs_steps": len(h.steps), "end": h.end}}
